@@ -49,3 +49,26 @@ impl<T> StackArc<T> {
     }
     pub(crate) fn get(&self) -> &T { &self.data }
 }
+
+/// Fallbacks used only when a harness is replayed natively against the REAL dependency crates:
+/// the stand-ins have inherent methods of the same names, which take precedence over these.
+pub(crate) trait InsertAt<K, V> { fn verif_insert_at(&self, slot: usize, k: K, v: V); }
+impl<K: Eq + std::hash::Hash, V> InsertAt<K, V> for dashmap::DashMap<K, V> {
+    fn verif_insert_at(&self, _slot: usize, k: K, v: V) { self.insert(k, v); }
+}
+
+/// `Arc<[T]>` of S elements backed by the caller's stack (see StackArc).
+#[repr(C)]
+pub(crate) struct StackArcSlice<T, const S: usize> { strong: std::sync::atomic::AtomicUsize, weak: std::sync::atomic::AtomicUsize, data: [T; S] }
+impl<T, const S: usize> StackArcSlice<T, S> {
+    pub(crate) fn new(data: [T; S]) -> Self {
+        StackArcSlice { strong: std::sync::atomic::AtomicUsize::new(2), weak: std::sync::atomic::AtomicUsize::new(1), data }
+    }
+    pub(crate) fn arc(&self) -> std::mem::ManuallyDrop<std::sync::Arc<[T]>> {
+        std::mem::ManuallyDrop::new(unsafe { std::sync::Arc::from_raw(std::ptr::slice_from_raw_parts(self.data.as_ptr(), S)) })
+    }
+}
+pub(crate) trait MapInsertAt<K, V> { fn verif_insert_at(&mut self, slot: usize, k: K, v: V); }
+impl<K: Eq + std::hash::Hash, V> MapInsertAt<K, V> for hashbrown::HashMap<K, V> {
+    fn verif_insert_at(&mut self, _slot: usize, k: K, v: V) { self.insert(k, v); }
+}
